@@ -174,8 +174,10 @@ RECURSIVE WalkSeq(_, _, _, _, _, _), WalkStmt(_, _, _, _, _, _), LoopIter(_, _, 
 (* the table references are resolved in *)
 (* `index' exists only while its loop iteration is walked, so no final valuation holds it: it is always taken from the walk *)
 IsIndexKey(k) == k = "index" \/ (Len(k) > 6 /\ SubSeq(k, Len(k) - 5, Len(k)) = ".index")
+(* variables are sequential as well: a frozen walk reads them from the walk, never from the final valuation (which must be
+   given without them: a read in front of the first assignment finds nothing) *)
 RefTab(st, sigma, frozen) ==
-  IF frozen THEN [k \in {x \in DOMAIN st.tab : IsIndexKey(x)} |-> st.tab[k]] @@ sigma ELSE st.tab
+  IF frozen THEN [k \in {x \in DOMAIN st.tab : IsIndexKey(x) \/ x \in st.vars} |-> st.tab[k]] @@ sigma ELSE st.tab
 
 EvalE(t, st, sigma, frozen) ==
   LET tab == RefTab(st, sigma, frozen)
@@ -415,22 +417,27 @@ RunPass(prog, m, af) ==
    is not part of the program.  (PruneStale = FALSE is the pinned reading: such symbols stayed and reached the symbol file.) *)
 PruneStale == TRUE
 FinalTab(r) == IF PruneStale THEN [k \in (r.defined \cup r.aliases \cup DOMAIN SegSyms(r.segs)) \cap DOMAIN r.tab |-> r.tab[k]] ELSE r.tab
+(* The table a pass hands to the next one: what that pass defined, without the variables - a symbol the pass did not define
+   (again) may not be resolved by the next pass, and variables are sequential, every pass starts without them.
+   (PruneStale = FALSE, the pinned reading: everything any earlier pass defined stayed visible, and a variable read in front of
+   its first assignment saw the last value of the previous pass.) *)
+NextTab(r) == IF PruneStale THEN [k \in DOMAIN FinalTab(r) \ r.vars |-> r.tab[k]] ELSE r.tab
 
 (* the decision after a pass (the implementation's bail-out rules) *)
 Decide(m, r, defaultPc) ==
   IF DOMAIN r.segs = {}            \* pass 0 of a program without segment definitions: create the default segment
-    THEN [m EXCEPT !.tab = r.tab, !.segs = ("default" :> NewSeg(defaultPc, defaultPc)), !.cur0 = "default",
+    THEN [m EXCEPT !.tab = NextTab(r), !.segs = ("default" :> NewSeg(defaultPc, defaultPc)), !.cur0 = "default",
                    !.undef = r.undef, !.prevErrs = r.errs, !.errs = {}, !.pass = @ + 1, !.vars = r.vars, !.nodes = r.nodes]
   ELSE IF r.errs # {} /\ r.errs = m.prevErrs
     THEN [m EXCEPT !.tab = r.tab, !.segs = r.segs, !.errs = r.errs, !.phase = "failed"]
   ELSE IF r.errs = {} /\ r.undef = {} /\ m.confirmed
     THEN [m EXCEPT !.tab = FinalTab(r), !.segs = r.segs, !.errs = {}, !.undef = {}, !.phase = "ok"]
   ELSE IF r.errs = {} /\ r.undef = {}       \* first clean pass: one more pass has to confirm the symbols (shadowing forward references)
-    THEN [m EXCEPT !.tab = r.tab, !.segs = r.segs, !.vars = r.vars, !.nodes = r.nodes, !.confirmed = TRUE,
+    THEN [m EXCEPT !.tab = NextTab(r), !.segs = r.segs, !.vars = r.vars, !.nodes = r.nodes, !.confirmed = TRUE,
                    !.prevErrs = {}, !.errs = {}, !.undef = {}, !.pass = @ + 1]
   ELSE IF r.errs = {} /\ r.undef = m.prevUndef
     THEN [m EXCEPT !.tab = r.tab, !.segs = r.segs, !.undef = r.undef, !.phase = "failed"]     \* "unknown identifier"
-  ELSE [m EXCEPT !.tab = r.tab, !.segs = r.segs, !.vars = r.vars, !.nodes = r.nodes,
+  ELSE [m EXCEPT !.tab = NextTab(r), !.segs = r.segs, !.vars = r.vars, !.nodes = r.nodes,
                  !.prevUndef = IF r.errs = {} THEN r.undef ELSE @,
                  !.undef = IF r.errs = {} THEN {} ELSE r.undef,
                  !.prevErrs = r.errs, !.errs = {}, !.pass = @ + 1]
